@@ -521,6 +521,7 @@ class Tree_deepcopy_method(Contract):
         src = a["self"]
         t = plain_tree(cx, "copy", fresh=True, symbol_obj=src.fields.get("_symbol"), read_only=src.fields.get("read_only"))
         cx.ghost.setdefault("deepcopies", []).append((src, t))
+        cx.ghost.setdefault("deepcopy_args", []).append({k: a.get(k, "absent") for k in ("copy_children", "copy_params", "copy_parent")})
         return t
 
 
